@@ -5,6 +5,7 @@ pub mod c02;
 pub mod c03;
 pub mod c04;
 pub mod c07;
+pub mod c08;
 pub mod c09;
 pub mod c10;
 pub mod c11;
@@ -33,6 +34,7 @@ pub fn run(what: &str, tier: &str, _rest: &[String]) -> i32 {
         "C07" => c07::run(tier),
         "C13" => routing::run_c13(tier),
         "C19" => routing::run_c19(tier),
+        "C08" => c08::run(tier),
         "C09" => c09::run(tier),
         "C10" => c10::run(tier),
         "C11" => c11::run(tier),
